@@ -160,10 +160,16 @@ impl Agg {
         if !spec.pre.is_empty() {
             bump(&mut self.perturb, "explicit_call_history");
             bump(&mut self.pre_len, &format!("{:02}", spec.pre.len()));
+            if rec.aborts_fired > 0 {
+                *self.perturb.entry("injected_abort_fired_in_an_earlier_call".to_string()).or_insert(0) += rec.aborts_fired;
+            }
             for p in &spec.pre {
                 bump(&mut self.pre_kind, p.op.name());
                 if p.shuffle.is_some() {
                     bump(&mut self.pre_kind, "renumbered");
+                }
+                if p.abort_at.is_some() {
+                    bump(&mut self.pre_kind, "abort_requested");
                 }
                 if p.base == spec.base {
                     bump(&mut self.pre_kind, "same_base_symbol_as_the_run");
